@@ -3,9 +3,12 @@ import OxiVerif.Model.C29
 /-!
 Driver for C29.  Requests:
   `seq <cap> <op,op,…>`                 one sequential history on `LruCache`
+  `oseq <cap> <ops>`                    the same on one `ObjectCache` (single thread)
+  `mm <cache_size> <ops>`               on `MemoryManager::new(options).cache()` (`nocache` if None)
   `conc <cap> <ops>|<ops>|… # <probe>`  per-thread histories on a shared `ObjectCache`, then a
                                          sequential probe after all threads joined
-ops: `g<k>` get, `p<k>:<v>` put, `c` clear, `l` len.  outs: `-` none, `v<n>`, `u`, `s<n>`.
+ops: `g<k>` get, `p<k>:<v>` put, `c` clear, `l` len, `e` is_empty (LruCache), `t` stats (ObjectCache).
+outs: `-` none, `v<n>`, `u`, `s<n>`, `b0`/`b1`, `t<size>:<cap>`.
 -/
 open OxiVerif OxiVerif.C29
 
@@ -13,6 +16,8 @@ def parseOp (t : String) : Option Op :=
   match t.toList with
   | ['c'] => some .clear
   | ['l'] => some .len
+  | ['e'] => some .isEmpty
+  | ['t'] => some .stats
   | 'g' :: r => (String.ofList r).toNat?.map .get
   | 'p' :: r =>
     match (String.ofList r).splitOn ":" with
@@ -28,6 +33,14 @@ def parseOut (t : String) : Option Out :=
   | ['u'] => some .unit
   | 'v' :: r => (String.ofList r).toNat?.map .val
   | 's' :: r => (String.ofList r).toNat?.map .size
+  | ['b', '0'] => some (.flag false)
+  | ['b', '1'] => some (.flag true)
+  | 't' :: r =>
+    match (String.ofList r).splitOn ":" with
+    | [a, b] => match a.toNat?, b.toNat? with
+      | some n, some c => some (.stats n c)
+      | _, _ => none
+    | _ => none
   | _ => none
 
 def showOut : Out → String
@@ -35,6 +48,8 @@ def showOut : Out → String
   | .unit => "u"
   | .val v => "v" ++ toString v
   | .size n => "s" ++ toString n
+  | .flag b => if b then "b1" else "b0"
+  | .stats n c => "t" ++ toString n ++ ":" ++ toString c
 
 def parseList {α} (f : String → Option α) (s : String) : Option (List α) :=
   if s = "" ∨ s = "." then some [] else (s.splitOn ",").mapM f
@@ -48,19 +63,63 @@ def firstDiff (a b : List Out) (i : Nat := 0) : Option Nat :=
   | x :: xs, y :: ys => if x = y then firstDiff xs ys (i + 1) else some i
   | _, _ => some i
 
+/-- The property's clauses evaluated directly on the implementation's answers (independent of
+the refinement): a hit returns the value most recently stored under that key since the last
+clear; no reported size exceeds the capacity; `stats` reports the construction-time capacity. -/
+def directClauses (cap : Nat) (ops : List Op) (outs : List Out) : Option String :=
+  let rec go (i : Nat) (f : Nat → Option Nat) : List Op → List Out → Option String
+    | op :: ops, o :: outs =>
+      let bad : Option String := match op, o with
+        | .get k, .val v => if f k = some v then none else some s!"fail:hit-is-not-the-value-last-stored-at-op-{i}"
+        | .get _, .none => none
+        | .len, .size n => if n ≤ cap then none else some s!"fail:size-exceeds-capacity-at-op-{i}"
+        | .stats, .stats n c =>
+          if n > cap then some s!"fail:size-exceeds-capacity-at-op-{i}"
+          else if c ≠ cap then some s!"fail:stats-capacity-differs-at-op-{i}" else none
+        | .isEmpty, .flag _ => none
+        | .put _ _, .unit => none
+        | .clear, .unit => none
+        | _, _ => some s!"fail:answer-of-the-wrong-kind-at-op-{i}"
+      match bad with
+      | some b => some b
+      | none => go (i + 1) (track f op) ops outs
+    | [], [] => none
+    | _, _ => some "fail:answer-count-differs"
+  go 0 (fun _ => none) ops outs
+
+def seqOracle (c : Nat) (os : List Op) (impl : String) : String :=
+  match parseList parseOut impl with
+  | some io =>
+    match directClauses c os io with
+    | some b => b
+    | none => match firstDiff io (Spec.run (Spec.new c) os) with
+      | none => "ok"
+      | some i => s!"fail:differs-from-abstract-LRU-at-op-{i}"
+  | none => "fail:unparsable-impl-answer"
+
 def handle (req impl : String) : String × String :=
   match req.splitOn " " with
   | ["seq", cap, ops] =>
     match cap.toNat?, parseList parseOp ops with
     | some c, some os =>
-      let m := Impl.run (Impl.new c) os
-      let spec := Spec.run (Spec.new c) os
-      let oracle := match parseList parseOut impl with
-        | some io => match firstDiff io spec with
-          | none => "ok"
-          | some i => s!"fail:differs-from-abstract-LRU-at-op-{i}"
-        | none => "fail:unparsable-impl-answer"
-      (showOuts m, oracle)
+      -- `LruCache` has no `stats`
+      if os.any (· == .stats) then ("bad-request", "na") else
+      (showOuts (Impl.run (Impl.new c) os), seqOracle c os impl)
+    | _, _ => ("bad-request", "na")
+  | ["oseq", cap, ops] =>
+    match cap.toNat?, parseList parseOp ops with
+    | some c, some os =>
+      -- `ObjectCache` has no `is_empty`
+      if os.any (· == .isEmpty) then ("bad-request", "na") else
+      (showOuts (Impl.run (Impl.new c) os), seqOracle c os impl)
+    | _, _ => ("bad-request", "na")
+  | ["mm", n, ops] =>
+    match n.toNat?, parseList parseOp ops with
+    | some n, some os =>
+      if os.any (· == .isEmpty) then ("bad-request", "na") else
+      match managerCache n with
+      | none => ("nocache", if impl = "nocache" then "ok" else "fail:manager-built-a-cache-of-capacity-0")
+      | some st => (showOuts (Impl.run st os), if impl = "nocache" then "fail:manager-built-no-cache" else seqOracle n os impl)
     | _, _ => ("bad-request", "na")
   | ["conc", cap, ths, "#", probe] =>
     match cap.toNat?, (ths.splitOn "|").mapM (parseList parseOp), parseList parseOp probe with
